@@ -27,6 +27,9 @@ type FlowSpec struct {
 	// derives from what is stored to T.f anywhere in the family (field-sensitive,
 	// object-insensitive).
 	Family []*ssa.Function
+	// Arith: a binary operation (string concatenation, addition, ...) derives from its
+	// operands (one suffices unless All).
+	Arith bool
 	// NoInter disables following calls to repository functions into their bodies.
 	NoInter bool
 	// Use (optional): the instruction that consumes the value. Alternatives of a phi that
@@ -264,6 +267,11 @@ func derives(v ssa.Value, s FlowSpec, seen map[seenKey]bool, depth int, fr *Fram
 	case *ssa.Parameter:
 		if arg, ok := fr.ArgOf(x); ok {
 			return derives(arg, s, seen, depth+1, fr.Parent)
+		}
+		return false
+	case *ssa.BinOp:
+		if s.Arith {
+			return alts([]ssa.Value{x.X, x.Y})
 		}
 		return false
 	case *ssa.ChangeInterface:
